@@ -1,29 +1,49 @@
 ---------------------------- MODULE Gen_StrCache ----------------------------
 (* Behaviour generation for C18: the calls of StrCache with a history variable.  Only the calls are
-   recorded (alloc size / dealloc of the k-th allocation with a size of the same class / release of a
-   foreign pointer / clearCache / clearAll); what the real cache answers is validated afterwards by
-   Trace_StrCache.  Buffers are named by the index of the alloc call that produced them, so that a
-   behaviour means the same on any implementation of the cache.  Alloc follows AllocImpl (the internal
-   choice does not change which call sequences exist). *)
+   recorded; what the real classes answer is validated afterwards by Trace_StrCache.  Calls:
+     new / gnew            construct a bare SimpleStringInternalCache / a GlobalSimpleStringCache
+     alloc k n             buffer request (bare: cache.alloc; global: through the adaptor SimpleStringCacheAllocator)
+     dealloc k m           release of the k-th allocation with a size of the same class
+     snew k n / sdel k n   (global) a SimpleString with an n-byte buffer is created / destroyed
+     foreign / clearcache / clearall   (bare) release of a foreign pointer, clearCache, clearAll
+     del / gdel            destroy the bare cache (after it was cleared) / the global cache (buffers may be in use)
+   Buffers are named by the index of the alloc call that produced them, so that a behaviour means the
+   same on any implementation of the cache.  Alloc follows AllocImpl (the internal choice does not
+   change which call sequences exist).  A behaviour may contain several life cycles. *)
 EXTENDS StrCache, Json
-CONSTANTS D,           \* number of calls per behaviour
-          ForeignSizes \* sizes passed with releases of foreign pointers
-VARIABLES h, done, hid, na
-gvars == <<vars, h, done, hid, na>>
+CONSTANTS D,            \* number of calls per behaviour
+          ForeignSizes, \* sizes passed with releases of foreign pointers
+          Kinds         \* kinds of cache object to construct: subset of {"bare", "global"}
+VARIABLES h, done, hid, na, sown
+gvars == <<vars, h, done, hid, na, sown>>
 
 Call(op, a, n) == h' = Append(h, [op |-> op, a |-> a, n |-> n])
+Room == Cardinality(DOMAIN req) < MaxLive
+Named == hid' = [m \in DOMAIN req' |-> IF m \in DOMAIN req THEN hid[m] ELSE na + 1]
 
-GInit == Init /\ h = <<>> /\ done = FALSE /\ hid = <<>> /\ na = 0
+GInit == Init /\ h = <<>> /\ done = FALSE /\ hid = <<>> /\ na = 0 /\ sown = {}
 GStep == /\ Len(h) < D /\ UNCHANGED done
-         /\ \/ \E n \in Sizes : /\ Cardinality(DOMAIN req) < MaxLive /\ AllocImpl(n) /\ Call("alloc", na + 1, n)
-                                /\ na' = na + 1 /\ hid' = [m \in DOMAIN req' |-> IF m \in DOMAIN req THEN hid[m] ELSE na + 1]
-            \/ \E mem \in DOMAIN req, m \in Sizes : /\ Dealloc(mem, m) /\ Call("dealloc", hid[mem], m)
-                                                    /\ hid' = [x \in DOMAIN req' |-> hid[x]] /\ UNCHANGED na
-            \/ \E m \in ForeignSizes : DeallocUnknown /\ Call("foreign", 1, m) /\ UNCHANGED <<hid, na>>
-            \/ Idle # {} /\ ClearCache /\ Call("clearcache", 0, 0) /\ UNCHANGED <<hid, na>>
-            \/ AllBlocks # {} /\ ClearAll /\ Call("clearall", 0, 0) /\ hid' = <<>> /\ UNCHANGED na
-\* every behaviour ends with clearAll (everything must come back), then one closing step prints it
-GEnd == /\ Len(h) = D /\ ~done /\ done' = TRUE /\ ClearAll /\ Call("clearall", 0, 0) /\ hid' = <<>> /\ UNCHANGED na
+         /\ \/ \E k \in Kinds : /\ Construct(k, {}) /\ Call(IF k = "bare" THEN "new" ELSE "gnew", 0, 0)
+                                /\ UNCHANGED <<hid, na, sown>>
+            \/ \E n \in Sizes : /\ Room /\ AllocImpl(n) /\ Call("alloc", na + 1, n)
+                                /\ na' = na + 1 /\ Named /\ UNCHANGED sown
+            \/ \E n \in Sizes \ {0} : /\ life = "global" /\ Room /\ AllocImpl(n) /\ Call("snew", na + 1, n)
+                                      /\ na' = na + 1 /\ Named /\ sown' = sown \cup {na + 1}
+            \/ \E mem \in DOMAIN req, m \in Sizes : /\ hid[mem] \notin sown /\ Dealloc(mem, m) /\ Call("dealloc", hid[mem], m)
+                                                    /\ hid' = [x \in DOMAIN req' |-> hid[x]] /\ UNCHANGED <<na, sown>>
+            \/ \E mem \in DOMAIN req : /\ hid[mem] \in sown /\ Dealloc(mem, req[mem]) /\ Call("sdel", hid[mem], req[mem])
+                                       /\ hid' = [x \in DOMAIN req' |-> hid[x]] /\ UNCHANGED <<na, sown>>
+            \/ \E m \in ForeignSizes : life = "bare" /\ DeallocUnknown /\ Call("foreign", 1, m) /\ UNCHANGED <<hid, na, sown>>
+            \/ life = "bare" /\ Idle # {} /\ ClearCache /\ Call("clearcache", 0, 0) /\ UNCHANGED <<hid, na, sown>>
+            \/ life = "bare" /\ AllBlocks # {} /\ ClearAll /\ Call("clearall", 0, 0) /\ hid' = <<>> /\ UNCHANGED <<na, sown>>
+            \/ /\ Destroy /\ Call(IF life = "bare" THEN "del" ELSE "gdel", 0, 0)
+               /\ hid' = <<>> /\ UNCHANGED <<na, sown>>
+\* every behaviour ends with everything given back: clearAll of a bare cache, destruction of a global cache
+\* (with whatever is still in use); then the closing step prints it
+GEnd == /\ Len(h) = D /\ ~done /\ done' = TRUE /\ UNCHANGED <<na, sown>>
+        /\ CASE life = "bare"   -> ClearAll /\ Call("clearall", 0, 0) /\ hid' = <<>>
+             [] life = "global" -> Destroy /\ Call("gdel", 0, 0) /\ hid' = <<>>
+             [] OTHER           -> UNCHANGED <<vars, h, hid>>
 GNext == GStep \/ GEnd
 GSpec == GInit /\ [][GNext]_gvars
 Dump == done => PrintT(<<"BEH", ToJson(h)>>)
